@@ -131,9 +131,11 @@ pub fn run_case(_ctx: &Ctx, prog: &Program, _tuples: &[Vec<i64>]) -> CaseResult 
 pub fn check(ctx: &Ctx) -> i32 {
     let start = Instant::now();
     let mut ev = Evidence::default();
-    ev.rule = "generated Fun programs (all constructs, effects anywhere, name reuse, compiler-style identifiers) that the checker accepts; every stage runs under catch_unwind (only the two documented capacity assertions are tolerated); independent checkers: Core type/scope checker on compile_prog's output, on the uniquified and on the focused program; AxCut checker on shrink_prog's output (scoping, kinds, types, clauses one per xtor in declaration order, call/let/invoke arguments against signatures); ordered-linear checker on the linearized program; all three code generators (RISC-V only for print-free programs). Non-trivial: >= 2 monomorphic type instances and >= 1 lifted/shared label; distinct by hash of the source.".into();
+    ev.rule = "generated Fun programs (all constructs, effects anywhere, name reuse, compiler-style identifiers) that the checker accepts; every stage runs under catch_unwind (only the two documented capacity assertions are tolerated); independent checkers: Core type/scope checker on compile_prog's output, on the uniquified and on the focused program; AxCut checker on shrink_prog's output (scoping, kinds, types, clauses one per xtor in declaration order, call/let/invoke arguments against signatures); ordered-linear checker on the linearized program; all three code generators (RISC-V only for print-free programs). Non-trivial: >= 2 monomorphic type instances and >= 1 lifted/shared label; distinct by hash of the source. Second domain: directly generated well-typed Core programs (gen_core, print-free) run through focusing, shrinking, linearization and the three code generators with the same independent checkers.".into();
     ev.assumptions = vec!["the checkers implement exactly the rules listed in property C12".into()];
     let n = ctx.tier.pick(3000, 200000);
+    // debugging aid: VERIF_ONLY=gencore skips the first domain
+    let n = if std::env::var("VERIF_ONLY").as_deref() == Ok("gencore") { 0 } else { n };
     let run = |b: &[u8]| {
         let c = decode(ctx, b);
         run_case(ctx, &c.prog, &c.tuples)
@@ -146,10 +148,24 @@ pub fn check(ctx: &Ctx) -> i32 {
         eprintln!("{}", f2.summary);
         report.violations.push(write_replay_with(ctx, "stages", &bytes, &f2, fun_case_json(&c2)));
     }
+    // second domain: Core programs generated directly
+    if report.violations.is_empty() {
+        use super::corecase::{self, Mode};
+        let n2 = ctx.tier.pick(3000, 200000);
+        let run2 = |b: &[u8]| corecase::run(ctx, Mode::Stages, b);
+        let out2 = drive(&mut ev, ctx.seed, 112, n2, 60, 1500, 300, &run2);
+        if let Some((bytes, f)) = out2.failure {
+            eprintln!("{}", f.summary);
+            report.violations.push(write_replay(ctx, "gencore", &bytes, &f));
+        }
+    }
     finish(ctx, &ev, &report, start)
 }
 
-pub fn replay(ctx: &Ctx, _sub: &str, bytes: &[u8], case: &serde_json::Value) -> CaseResult {
+pub fn replay(ctx: &Ctx, sub: &str, bytes: &[u8], case: &serde_json::Value) -> CaseResult {
+    if sub.starts_with("gencore") {
+        return super::corecase::run(ctx, super::corecase::Mode::Stages, bytes);
+    }
     let c = fun_case_from_json(case).unwrap_or_else(|| decode(ctx, bytes));
     run_case(ctx, &c.prog, &c.tuples)
 }
